@@ -427,6 +427,7 @@ func runCase(c *kit.Case, pool []member) {
 				comp.RegisterMessageIDFuncs(idPartial, cb, checkFunc(mon, "ts"))
 			}
 			w.comps[i] = comp
+			a.discoverProtocols(host)
 		}
 		w.net.SetTap(func(e *fakenet.Envelope) {
 			if e.Proto != protoMsg {
